@@ -39,6 +39,9 @@ CHECKS['C17'] = dict(level='exploration', technique='bounded-exhaustive enumerat
 
 PENDING = {}
 
+# drivers reviewed and released (a driver file that exists but is not listed here is not claimed yet)
+READY = ['C08', 'C09', 'C10', 'C16', 'C17', 'C35', 'C36']
+
 
 def main():
     props = [json.loads(l) for l in open(os.path.join(VERIF, 'properties.jsonl'))]
@@ -47,7 +50,7 @@ def main():
     for p in props:
         pid = p['id']
         c = CHECKS.get(pid)
-        if c is None and os.path.exists(os.path.join(VERIF, 'mc', 'props', pid + '.py')):
+        if c is None and pid in READY and os.path.exists(os.path.join(VERIF, 'mc', 'props', pid + '.py')):
             import importlib
             c = getattr(importlib.import_module('mc.props.' + pid), 'MANIFEST', None)
         if c is None:
